@@ -16,7 +16,8 @@ PID = "C16"
 LEVEL = "exploration"
 TECHNIQUE = ("property testing of the proxy-header middleware for a trusted peer: generated hop lists incl. degenerate "
              "elements; totality, metamorphic non-interference (untrusted kinds / hops left of the trusted suffix), "
-             "reference model of the hop-selection rule, enumerated malformed-class table => 400; sample end-to-end")
+             "reference model of the hop-selection rule, enumerated malformed-class table => 400; sample end-to-end; "
+             "coverage-guided atheris campaign over arbitrary field-value bytes with the same oracle inside the target")
 RULE = ("case = (values of Forwarded / X-Forwarded-{For,Host,Proto,Port,By} as hop lists of length 0..5 from a grammar "
         "(IPv4, bracketed/bare IPv6, ports, quoting) with degenerate elements, trusted_proxy_count 1..4, an allowed "
         "subset of trusted_proxy_headers, clear_untrusted on/off); non-trivial = a list longer than the count, a "
